@@ -1,5 +1,5 @@
 """C14 - beats are exact fractions that snap to the 1/48 grid only from inexact input (structural clauses)."""
-from ..rules import timing
+from ..rules import timing, baseline
 
 EXPLANATION = (
     "Static rule checking of Beat/BeatValues/TimingData: R-OPS every arithmetic dunder of fractions.Fraction (running interpreter) "
@@ -24,8 +24,12 @@ def c5(ctx):
     timing.beatvalues_codec(ctx, judge_source=False)
 
 
+def c_api(ctx):
+    baseline.surface(ctx, "C14: documented surface", modules=['simfile.timing'])
+
 CLAUSES = [
     ("C14.1", "operator completeness and same-name delegation (R-OPS)", c1),
     ("C14.2-4", "exact vs. snapping path; grid constants; text form injective on the grid", c2),
     ("C14.5-6", "event list writer/reader delimiters; timing strings reach the engine through one parser", c5),
+    ("C14.api", "public surface: signatures and defaults, constants, enumerations, blank templates, base classes as confirmed (R-API)", c_api),
 ]
